@@ -293,6 +293,11 @@ def build_side(entries, hist):
     if isinstance(hist, dict) and "view" in hist:
         return build_view(hist), None
     if isinstance(hist, dict):
+        if hist.get("view_all"):
+            # an all-pass view over the LAZY index: the diff (view.ls with detail) is the first access of the directory
+            from dvc_data.index import view
+
+            return view(build_lazy(hist), lambda k: True), None
         return build_lazy(hist), None
     return apply_hist(hist)
 
@@ -1171,6 +1176,13 @@ def gen_lazy_bundles(ctx, n_codes):
                 "extra": extra}
 
     so, sn = spec(fo, extra_o), spec(fn, extra_n)
+    if mount and rng.random() < 0.4:
+        which = rng.choice(["old", "new", "both"])
+        if which in ("old", "both"):
+            so["view_all"] = True
+        if which in ("new", "both"):
+            sn["view_all"] = True
+        ctx.count("lazy:all-pass-view-over-lazy-index:" + which)
     shape = rng.choice(["both", "both", "both", "old-lazy", "new-lazy", "old-none", "new-none", "self"])
     if shape == "self":
         sn = copy.deepcopy(so)
